@@ -153,8 +153,15 @@ func ParseResponse(data []byte, req *http.Request) (resp *Response, err error) {
 	}
 	resp = new(Response)
 	resp.ID = string(parts[0])
-	resp.RequestedAt, _ = time.Parse(time.RFC3339Nano, string(parts[1]))
-	resp.ReceivedAt, _ = time.Parse(time.RFC3339Nano, string(parts[2]))
+	// The times are part of what the age is computed from: a line on which they cannot be read is
+	// damaged, and the entry unreadable (zero times would make the response look ages old, or new).
+	var timeErr error
+	if resp.RequestedAt, timeErr = time.Parse(time.RFC3339Nano, string(parts[1])); timeErr != nil {
+		return nil, fmt.Errorf("%w: request time: %w", errInvalidMetaLine, timeErr)
+	}
+	if resp.ReceivedAt, timeErr = time.Parse(time.RFC3339Nano, string(parts[2])); timeErr != nil {
+		return nil, fmt.Errorf("%w: response time: %w", errInvalidMetaLine, timeErr)
+	}
 	//nolint:bodyclose // The response body is not closed here, as it may be reused later.
 	r, err := http.ReadResponse(reader, req)
 	if err != nil {
